@@ -179,14 +179,53 @@ def rule_checkable_no_command(ctx):
         pass
 
 
+def rule_hold_counter(ctx):
+    """R-C12-5: the open-hold counter only moves with hold()/release() of the running command, and is cleared only
+    when the step stops RUNNING."""
+    SS = ctx.prog.enum("StepState")
+    direct = {}
+    for st in ctx.sql.writers_of("step", "_holding", op="UPDATE"):
+        direct.setdefault(st.site.func.fq, []).append(st)
+    allowed = {"step.Step.hold": r"SET _holding = _holding \+ 1", "step.Step.release": r"SET _holding = _holding - 1 WHERE node = \? AND _holding > 0"}
+    if not set(allowed) <= set(direct):
+        raise AnalysisError(f"hold()/release() no longer write step._holding (writers: {sorted(direct)})")
+    for fq, stmts in sorted(direct.items()):
+        for stx in stmts:
+            where = f"stepup/core/{stx.site.func.module.path.name}:{stx.site.lineno}"
+            if fq in allowed:
+                ctx.check(re.search(allowed[fq], _norm(stx.text)) is not None, fq, "counter moves by one (release only from a positive count)", f"statement: {_norm(stx.text)[:120]}", "±1", where=where)
+            else:
+                ctx.bad(fq, "UPDATE step._holding outside hold()/release()",
+                        "the open-hold counter is overwritten by a function that is not tied to the running command's own hold()/release(): if the step is RUNNING inside a hold() block at that moment (a detached step keeps running and can be recycled), the steps it declared in the block are released before the block ends", where=where)
+    trig = [t for t in ctx.cat.triggers.values() if re.search(r"UPDATE step SET _holding = 0", _norm(t.body))]
+    ctx.check(len(trig) == 1 and trig[0].table == "step" and trig[0].op == "UPDATE" and "state" in trig[0].of_cols, "step.STEP_SCHEMA", "one trigger clears the counter, on a state change",
+              f"{[t.name for t in trig]}", "step_reset_holding")
+    if trig:
+        tt = ctx.cat.truth_table(trig[0].when, {"NEW.state": [m.value for m in SS], "NEW._holding": [0, 1, 2]})
+        wrong = [(stv, h) for (stv, h), v in tt.items() if bool(v) != (stv != SS.RUNNING.value and h != 0)]
+        ctx.check(not wrong, f"trigger {trig[0].name}", "clears exactly when the new state is not RUNNING and the counter is non-zero", f"differs at {wrong[:3]}", f"{len(tt)} points")
+    ins = [s for s in ctx.sql.stmts_in("step.Step.initialize_row") if s.kind == "INSERT" and re.search(r"INSERT INTO step\b", s.text)]
+    dflt = ctx.cat.tables["step"].columns.get("_holding", {}).get("dflt")
+    named = any(re.search(r"\b_holding\b", s.text.split("VALUES")[0].split("SELECT")[0]) for s in ins)
+    ctx.check(bool(ins) and (named or str(dflt) == "0"), "step.Step.initialize_row", "a fresh step row starts with no open hold", f"default {dflt!r}", "0")
+    dh = ctx.prog.func("director.DirectorHandler.hold_dispatch") if "director.DirectorHandler.hold_dispatch" in {f.fq for f in ctx.prog.all_functions()} else None
+    if dh is not None:
+        src = _norm(ast.unparse(dh.node))
+        ctx.check(".hold()" in src, dh.fq, "the hold request reaches Step.hold of the calling step", "hold request no longer increments the counter", "hold()")
+
+
 RULES = [
     Rule("R-C12-1", "tasks start only inside the slot budget", rule_slots, min_instances=8),
     Rule("R-C12-2", "commands are launched only inside the budget", rule_commands_in_budget, min_instances=10),
     Rule("R-C12-3", "resource check-then-claim is atomic and exact", rule_resources, min_instances=8),
     Rule("R-C12-4", "a checkable job cannot run a command", rule_checkable_no_command, min_instances=6),
+    Rule("R-C12-5", "hold counter discipline", rule_hold_counter, min_instances=5),
 ]
 
 MUTANTS = [
+    Mutant("recycle-clears-hold", "step.py", in_function("Step.after_recycle", replace_once('"UPDATE step SET need = ?, shell = ? WHERE node = ?"', '"UPDATE step SET need = ?, shell = ?, _holding = 0 WHERE node = ?"')), ("R-C12-5",)),
+    Mutant("release-unguarded", "step.py", in_function("Step.release", replace_once("WHERE node = ? AND _holding > 0 ", "WHERE node = ? ")), ("R-C12-5",)),
+    Mutant("reset-hold-always", "step.py", replace_once("WHEN NEW.state != {StepState.RUNNING.value} AND NEW._holding != 0", "WHEN NEW._holding != 0"), ("R-C12-5",)),
     Mutant("running-sum-attached-only", "scheduler.py", replace_once("              JOIN step AS s2 ON s2.node = r2.node\n              WHERE r2.name = req.name\n                AND s2.state = {StepState.RUNNING.value}\n", "              JOIN step AS s2 ON s2.node = r2.node\n              JOIN node AS n2 ON n2.i = r2.node\n              WHERE r2.name = req.name\n                AND s2.state = {StepState.RUNNING.value}\n                AND NOT n2.detached\n"), ("R-C12-3",)),
     Mutant("recycle-keeps-claims", "step.py", in_function("Step.after_recycle", replace_once("            self.graph.mark_step_pending(self)\n        self.set_resources(resources)\n", "            self.graph.mark_step_pending(self)\n            self.set_resources(resources)\n")), ("R-C12-3",)),
     Mutant("slot-le", "builder.py", in_function("Builder.job_loop", lambda s: s.replace("            if len(self.running_tasks) < self.njob:\n                job = await self.scheduler.pop_next_job()", "            if len(self.running_tasks) <= self.njob:\n                job = await self.scheduler.pop_next_job()") if "job = await self.scheduler.pop_next_job()" in s else None), ("R-C12-1",)),
